@@ -93,7 +93,7 @@ pub const CHECKS: &[Check] = &[
     },
     Check {
         id: "C08",
-        scenarios: &[("pool", 450_000, 9_000_000), ("mt-pool", 20_000, 500_000), ("pool-wrap", 32, 96), ("pool-cross", 60_000, 1_200_000)],
+        scenarios: &[("pool", 450_000, 9_000_000), ("mt-pool", 20_000, 500_000), ("pool-wrap", 16, 96), ("pool-cross", 60_000, 1_200_000)],
         owns: &["pool."],
         level: "exploration",
         rule: "one case = one seeded history of pool reads, multishot reads, edits, releases and drops; after every step {kernel window} + {owned by live ReadBufs} partitions the pool; distinct = distinct abstract trace hash; non-trivial = fault fired, kernel acted at a yield point or thread switch",
@@ -211,7 +211,37 @@ fn set_child_profile(profile: &str) {
 
 /// `worker <scenario> <seed> <start> <end> <stride> <deadline_ms>`: runs
 /// indices start, start+stride, ... < end and reports on stdout.
+/// Heartbeat of a worker process: a line on stdout at most every half second,
+/// at the start of a run and from inside the few scenarios whose single runs
+/// are long (`pool-wrap`). The orchestrator's watchdog takes silence, not a
+/// fixed allowance of wall-clock time, for "the run never ends" - so a slow or
+/// loaded machine cannot turn a long run into a false `hang`.
+pub fn beat() {
+    use std::sync::atomic::{AtomicU64, Ordering};
+    static LAST: AtomicU64 = AtomicU64::new(0);
+    static T0: std::sync::OnceLock<Instant> = std::sync::OnceLock::new();
+    let now = T0.get_or_init(Instant::now).elapsed().as_millis() as u64 + 1;
+    let last = LAST.load(Ordering::Relaxed);
+    if last != 0 && now < last + 500 {
+        return;
+    }
+    LAST.store(now, Ordering::Relaxed);
+    if !WORKER.load(Ordering::Relaxed) {
+        return;
+    }
+    let out = std::io::stdout();
+    let mut w = out.lock();
+    let _ = writeln!(w, "B");
+    let _ = w.flush();
+}
+
+static WORKER: std::sync::atomic::AtomicBool = std::sync::atomic::AtomicBool::new(false);
+
+/// Silence after which the watchdog ends a worker.
+const HANG_SILENCE: Duration = Duration::from_secs(45);
+
 pub fn worker(args: &[String]) {
+    WORKER.store(true, std::sync::atomic::Ordering::Relaxed);
     let scenario = &args[0];
     let seed: u64 = args[1].parse().unwrap();
     let start: u64 = args[2].parse().unwrap();
@@ -225,14 +255,19 @@ pub fn worker(args: &[String]) {
     let mut nontrivial = 0u64;
     let mut samples = 0usize;
     let mut i = start;
-    // A warm-up run so one-time allocations do not count as leaks.
-    let _ = run::run(scenario, Mode::Seed(tape::mix(seed ^ 0xdead, scenario, 0)), false);
+    beat();
+    // A warm-up run so one-time allocations do not count as leaks (not for
+    // `pool-wrap`: one run is seconds long and it has no leak audit).
+    if scenario != "pool-wrap" {
+        let _ = run::run(scenario, Mode::Seed(tape::mix(seed ^ 0xdead, scenario, 0)), false);
+    }
     let base = stats::snapshot();
     while i < end {
         if runs % 64 == 0 && Instant::now() > deadline {
             break;
         }
         crate::segv::RUN_INDEX.store(i, std::sync::atomic::Ordering::Relaxed);
+        beat();
         let s = tape::mix(seed, scenario, i);
         let log = samples < want_samples;
         let o = run::run(scenario, Mode::Seed(s), log);
@@ -333,14 +368,23 @@ fn run_workers(bin: &std::path::Path, scenario: &str, tag: &str, seed: u64, tota
                     // forever) must not hang the check.
                     let pid = child.id() as i32;
                     let finished = std::sync::Arc::new(std::sync::atomic::AtomicBool::new(false));
+                    // Milliseconds (since the spawn) at which the worker last said something.
+                    let heard = std::sync::Arc::new(std::sync::atomic::AtomicU64::new(0));
+                    let spawned = Instant::now();
                     {
                         let finished = finished.clone();
-                        let grace = left + Duration::from_secs(20);
+                        let heard = heard.clone();
+                        // Safety net only: no worker may outlive its budget by this much.
+                        let cap = left + Duration::from_secs(900);
                         std::thread::spawn(move || {
-                            let t0 = Instant::now();
-                            while t0.elapsed() < grace {
+                            loop {
                                 if finished.load(std::sync::atomic::Ordering::Acquire) {
                                     return;
+                                }
+                                let now = spawned.elapsed();
+                                let last = Duration::from_millis(heard.load(std::sync::atomic::Ordering::Acquire));
+                                if now.saturating_sub(last) > HANG_SILENCE || now > cap {
+                                    break;
                                 }
                                 std::thread::sleep(Duration::from_millis(200));
                             }
@@ -357,6 +401,10 @@ fn run_workers(bin: &std::path::Path, scenario: &str, tag: &str, seed: u64, tota
                     let mut done = false;
                     for line in rd.lines() {
                         let Ok(line) = line else { break };
+                        heard.store(spawned.elapsed().as_millis() as u64, std::sync::atomic::Ordering::Release);
+                        if line == "B" {
+                            continue;
+                        }
                         if let Some(rest) = line.strip_prefix("V ") {
                             let mut it = rest.splitn(3, ' ');
                             let idx: u64 = it.next().and_then(|s| s.parse().ok()).unwrap_or(0);
@@ -530,6 +578,8 @@ pub fn tape_run(scenario: &str, tape_values: Vec<u32>, log: bool) -> Vec<String>
 /// Returns what it wrote to stdout.
 fn child_output(args: &[&str], secs: u64) -> Option<String> {
     use std::io::Read;
+    // One `pool-wrap` run is seconds long (more than 2^16 pool operations).
+    let secs = if args.get(1) == Some(&"pool-wrap") { secs * 12 } else { secs };
     let mut child = Command::new(child_bin())
         .args(args)
         .stdout(Stdio::piped())
